@@ -24,7 +24,8 @@ def rescan_shipped(ctx):
     from multidecoder.node import Node
     from scan_common import RecordingRegistry
     reg = RecordingRegistry()
-    md = Multidecoder(decoders=reg.decoders)
+    md_rec = Multidecoder(decoders=reg.decoders)      # only to learn which reported hits carried decoder-supplied sub-structure
+    md = Multidecoder()                               # the scanner under test: the shipped registry exactly as a user gets it
     md2 = Multidecoder()
     inputs = []
     for p in stacks.PAYLOADS[:6]:
@@ -34,18 +35,41 @@ def rescan_shipped(ctx):
                 inputs.append(b[0])
                 if len(inputs) % 7 == 0:
                     inputs.append(b[0] + b" again: " + b[2])        # the same blob twice in one document
+    # every text-only outer layer around the layers whose OUTPUT is binary / contains NUL bytes (what is found inside a blob must not depend on what the
+    # enclosing document looks like), and a PE file inside base64 / hex
+    import struct
+    pe = bytearray(0x200)
+    pe[0:2] = b"MZ"
+    struct.pack_into("<I", pe, 0x3C, 0x80)
+    pe[0x80:0x84] = b"PE\0\0"
+    struct.pack_into("<HHIIIHH", pe, 0x84, 0x14C, 1, 0, 0, 0, 0xE0, 0x102)
+    struct.pack_into("<H", pe, 0x98, 0x10B)
+    pe[0x178:0x180] = b".text\0\0\0"
+    struct.pack_into("<IIII", pe, 0x180, 0x200, 0x1000, 0x200, 0x200)
+    pe = bytes(pe) + b"\x90" * 0x200
+    for outer in ("b64", "atob", "hex", "FromHexString", "xml", "unescape", "FromBase64String"):
+        for innername in ("utf16", "b64", "xmlhexX"):
+            b = stacks.build(stacks.PAYLOADS[ctx.rng.randrange(3)], [stacks.BY_NAME[outer], stacks.BY_NAME[innername]], b"doc: ", b" end")
+            if b is not None and len(b[0]) < 4000:
+                inputs.append(b[0])
+        b = stacks.build(b"zz " + pe + b" zz", [stacks.BY_NAME[outer]], b"doc: ", b" end")
+        if b is not None and len(b[0]) < 9000:
+            inputs.append(b[0])
+    pinned = len(inputs)
     for _ in range(ctx.budget(60, 1200)):
         h = ctx.rng.randint(1, 3)
         inner = ctx.rng.choice(stacks.PAYLOADS[:6] + [corpus_gen.plain_nested(ctx.rng) for _ in range(3)])
         b = stacks.build(inner, [ctx.rng.choice(stacks.LAYERS) for _ in range(h)], ctx.rng.choice(stacks.NEUTRAL_PRE), ctx.rng.choice(stacks.NEUTRAL_SUF))
         if b is not None and len(b[0]) < 4000:
             inputs.append(b[0])
-    ctx.rng.shuffle(inputs)
-    inputs = inputs[: ctx.budget(150, 2500)]
+    rest = inputs[pinned:]
+    ctx.rng.shuffle(rest)
+    inputs = inputs[:pinned] + rest[: ctx.budget(60, 2000)]
     for data in inputs:
         depth = ctx.rng.choice([10, 10, 3, 2])
         del reg.calls[:]
         tree = node_val(md.scan(data, depth))
+        md_rec.scan(data, depth)
         ctx.evals += 1
         supplied = {(h[0], h[1], h[2]) for _n, _v, hits in reg.calls for h in hits if h[5]}
         bad = []
